@@ -35,9 +35,30 @@ Definition success_complete (t : list tev) (e : tev) : bool :=
   | _ => true
   end.
 
+(* 3. nothing follows an incomplete packet: after a Write call that did not complete, the next
+   Write on that connection (if any) offers exactly the bytes that call left over (the retry
+   after a deadline expiry with progress); anything else would sit behind a broken packet *)
+Fixpoint retry_only (c : N) (t : list tev) (pending : option (list N)) : bool :=
+  match t with
+  | [] => true
+  | TEv _ (QWrite c' bs) (AWr n r) :: rest =>
+    if c' =? c then
+      (match pending with Some rem => list_eqb bs rem | None => true end) &&
+      retry_only c rest (match r with
+                         | WOk => None
+                         | _ => match skipn (N.to_nat n) bs with
+                                | [] => None            (* everything offered was taken: the packet goes on with the next buffer *)
+                                | rem => Some rem
+                                end
+                         end)
+    else retry_only c rest pending
+  | _ :: rest => retry_only c rest pending
+  end.
+
 Definition c08_ok (h : histcase) : bool :=
   let t := trace_of h in
-  no_panic t && forallb (conn_whole t) (conns t) && forallb (success_complete t) t.
+  no_panic t && forallb (conn_whole t) (conns t) && forallb (success_complete t) t
+  && forallb (fun c => retry_only c t None) (conns t).
 
 Definition c08_run (l : list histcase) : list N * list N * list (N * N) :=
   (idx_filter hist_agree l 0, idx_filter c08_ok l 0, []).
